@@ -341,6 +341,10 @@ pub struct Program
     /// Add `ReactPlugin` after the app-level reactors (`add_reactor`, `add_world_reactor*`, `add_entity_reactor`) instead of before.
     #[serde(default)]
     pub plugin_last: bool,
+    /// A second, independent `App` with its own reactors and auto-despawn signals lives next to the one under test and is
+    /// exercised between the driver steps: neither world may affect the other.
+    #[serde(default)]
+    pub bystander: bool,
 }
 
 impl Program
